@@ -127,6 +127,13 @@ type InProc struct {
 	LocalAddr net.Addr
 	// Before, if set, may short-circuit a request (scripted failures).
 	Before func(req *http.Request, n int64) (*http.Response, error)
+	// AsyncDelete makes DELETE behave as behind an intermediary that acknowledges
+	// it at once (204) while the server processes it in the background. The SDK
+	// client issues its session DELETE while holding its connection mutex; a
+	// server that needs virtual time to finish closing would otherwise leave
+	// other client goroutines blocked on that mutex (not a durable block), which
+	// stops the bubble's clock for good.
+	AsyncDelete bool
 	// WrapBody, if set, wraps the response body handed to the client (cut injection).
 	WrapBody func(req *http.Request, n int64, resp *http.Response, body io.ReadCloser) io.ReadCloser
 
@@ -208,6 +215,22 @@ func (t *InProc) RoundTrip(req *http.Request) (*http.Response, error) {
 	}
 	sreq.RemoteAddr = "127.0.0.1:1"
 	w := &pipeRW{hdr: http.Header{}, pipe: newBufPipe(), ready: make(chan struct{}), cancel: cancel}
+	if t.AsyncDelete && req.Method == http.MethodDelete {
+		sreq = sreq.WithContext(context.WithoutCancel(ctx))
+		t.wg.Add(1)
+		go func() {
+			defer t.wg.Done()
+			defer cancel()
+			t.Handler.ServeHTTP(w, sreq)
+			w.WriteHeader(http.StatusOK)
+			w.pipe.CloseWrite(nil)
+		}()
+		if t.Log != nil {
+			t.Log.Add("http", "n", n, "method", req.Method, "status", 204, "sid", req.Header.Get("Mcp-Session-Id"), "async", true)
+		}
+		return &http.Response{Status: "204 No Content", StatusCode: 204, Proto: "HTTP/1.1", ProtoMajor: 1, ProtoMinor: 1,
+			Header: http.Header{}, Body: http.NoBody, Request: req}, nil
+	}
 	t.wg.Add(1)
 	go func() {
 		defer t.wg.Done()
